@@ -72,6 +72,7 @@ class FakeSocket:
         self.wr_shut = False
         self.rd_shut = False
         self.reset = False          # connection was reset (by peer or by an injected RST)
+        self.got_injected = False   # an injected errno was raised on this socket
         self.reset_seen = False
         self.blocking = True
         self.opts = {}
@@ -293,7 +294,12 @@ class FakeSocket:
         raise BlockingIOError(errno.EAGAIN, "Resource temporarily unavailable")
 
     def _after_injected_errno(self, code):
-        """an injected connection-level errno means the connection is really gone"""
+        """an injected connection-level errno means the connection is really gone -- unless the case asked for a
+        one-shot error (net.errno_one_shot): the call fails once and the socket stays usable, as after a transient
+        routing error; then only the endpoint's own reaction to that one call can mark the connection"""
+        self.got_injected = True
+        if self.net.errno_one_shot:
+            return
         if code in (errno.ECONNRESET, errno.EPIPE, errno.ENETRESET, errno.ETIMEDOUT, errno.ECONNREFUSED,
                     errno.ENETUNREACH, errno.EHOSTUNREACH, errno.ENETDOWN, errno.EHOSTDOWN):
             self.reset = True
@@ -393,6 +399,7 @@ class SimNet:
         self.faults_on = True
         self.errno_plan = {}        # (op, owner) -> [call_index, errno]  one-shot injected errnos
         self.bind_fail = None       # errno for the next bind(), one-shot
+        self.errno_one_shot = False # injected errnos do not reset the connection
         self.current_owner = None
         self.ports = list(ports)
         self._port_next = 0
